@@ -20,8 +20,9 @@ class Lib:
 
     def __init__(self, root):
         self.root = root
-        crate = os.path.join(root, "harness", "rlibdep")
-        tdir = os.path.join(root, "harness", "target", "rlibdep")
+        hdir = os.environ.get("VERIF_HARNESS_DIR") or os.path.join(root, "harness")
+        crate = os.path.join(hdir, "rlibdep")
+        tdir = os.path.join(hdir, "target", "rlibdep")
         p = subprocess.run(["cargo", "build", "--message-format=json", "--target-dir", tdir], cwd=crate, env=env(),
                            stdout=subprocess.PIPE, stderr=subprocess.PIPE, text=True)
         if p.returncode != 0:
